@@ -307,3 +307,126 @@ class Program:
             out += "/-- %s -/\n" % doc.replace("-/", "- /")
             out += "def %s %s : %s :=\n%s\n" % (name, " ".join("(%s : %s)" % (k, LEAN_TYPE[t]) for k, t in params), self.result_type, body)
         return out
+
+
+# ====================================================================== dynamically typed functions (the casts)
+
+
+class CastProgram:
+    """Statement-level translation of a small, dynamically typed Python function (`parse_date`, `parse_time`,
+    `parse_timestamp` of orso/types.py) into a Lean program over the primitives of `Model/IsoCastPrim.lean`.
+
+    Every expression becomes an `Except Exc Val`, every block an `Except Exc (Option Val)` (`.ok (some v)`: returned v,
+    `.ok none`: fell off the end, `.error e`: raised e).  Supported subset (anything else raises `Untranslatable`):
+
+      statements   `n = e`, `return e`, `raise C(...)` / `raise C`, `pass`, `if t: ... [else: ...]`,
+                   `try: ... except C / (C1, C2): ...` (one handler, no else/finally), a docstring
+      expressions  names, `None`, `parse_iso(e)`, `e.date()`, `e.time()`, `e.decode("utf-8")`,
+                   `datetime.time.fromisoformat(e)`, `a if t else b`
+      tests        `isinstance(n, C)` / `isinstance(n, (C1, C2))`, `n is None`, `n is not None`, `not t`, `and`, `or`
+    """
+
+    CALLS = {"parse_iso": "callParseIso", "datetime.time.fromisoformat": "callTimeFromIso"}
+    METHODS = {"date": "methDate", "time": "methTime"}
+
+    def __init__(self, name, fn):
+        self.defname, self.fn = name, fn
+        a = fn.args
+        if len(a.args) != 1 or a.vararg or a.kwonlyargs or a.posonlyargs or a.defaults or fn.decorator_list:
+            raise Untranslatable("signature / decorators of %s" % fn.name)
+        self.param = a.args[0].arg
+
+    def cls(self, n):
+        t = ast.unparse(n)
+        if not all(p.isidentifier() for p in t.split(".")):
+            raise Untranslatable("class expression %s" % t)
+        return t
+
+    def classes(self, n):
+        elts = n.elts if isinstance(n, ast.Tuple) else [n]
+        if not elts:
+            raise Untranslatable("empty class tuple")
+        return "[%s]" % ", ".join('"%s"' % self.cls(e) for e in elts)
+
+    def var(self, n, env):
+        if not isinstance(n, ast.Name) or n.id not in env:
+            raise Untranslatable("not a variable in scope: %s" % ast.unparse(n))
+        return n.id
+
+    def test(self, n, env):
+        if isinstance(n, ast.Call) and isinstance(n.func, ast.Name) and n.func.id == "isinstance" and len(n.args) == 2 and not n.keywords:
+            return "pyIsInstance %s %s" % (self.var(n.args[0], env), self.classes(n.args[1]))
+        if (isinstance(n, ast.Compare) and len(n.ops) == 1 and isinstance(n.ops[0], (ast.Is, ast.IsNot))
+                and isinstance(n.comparators[0], ast.Constant) and n.comparators[0].value is None):
+            t = "pyIsNone %s" % self.var(n.left, env)
+            return t if isinstance(n.ops[0], ast.Is) else "!(%s)" % t
+        if isinstance(n, ast.UnaryOp) and isinstance(n.op, ast.Not):
+            return "!(%s)" % self.test(n.operand, env)
+        if isinstance(n, ast.BoolOp):
+            return "(" + (" && " if isinstance(n.op, ast.And) else " || ").join("(%s)" % self.test(v, env) for v in n.values) + ")"
+        raise Untranslatable("test %s" % ast.unparse(n))
+
+    def expr(self, n, env):
+        if isinstance(n, ast.Name):
+            return "pyVal %s" % self.var(n, env)
+        if isinstance(n, ast.Constant) and n.value is None:
+            return "pyVal .noneV"
+        if isinstance(n, ast.IfExp):
+            return "if %s then (%s) else (%s)" % (self.test(n.test, env), self.expr(n.body, env), self.expr(n.orelse, env))
+        if isinstance(n, ast.Call) and not n.keywords:
+            f = ast.unparse(n.func)
+            if f in self.CALLS and len(n.args) == 1:
+                return "(%s).bind %s" % (self.expr(n.args[0], env), self.CALLS[f])
+            if isinstance(n.func, ast.Attribute):
+                if n.func.attr in self.METHODS and not n.args:
+                    return "(%s).bind %s" % (self.expr(n.func.value, env), self.METHODS[n.func.attr])
+                if (n.func.attr == "decode" and len(n.args) == 1 and isinstance(n.args[0], ast.Constant)
+                        and isinstance(n.args[0].value, str) and n.args[0].value.lower().replace("-", "") == "utf8"):
+                    return "(%s).bind methDecode" % self.expr(n.func.value, env)
+        raise Untranslatable("expression %s" % ast.unparse(n))
+
+    def block(self, stmts, env, ind, top):
+        pad = "  " * ind
+        if not stmts:
+            return pad + ".ok none\n"
+        s, rest = stmts[0], stmts[1:]
+        head = "%s-- %s\n" % (pad, ast.unparse(s).split("\n")[0])
+        if isinstance(s, ast.Expr) and isinstance(s.value, ast.Constant) and isinstance(s.value.value, str):
+            return self.block(rest, env, ind, top)
+        if isinstance(s, ast.Assign) and len(s.targets) == 1 and isinstance(s.targets[0], ast.Name):
+            x = s.targets[0].id
+            if x in env and not top:
+                raise Untranslatable("re-assignment of %s in a nested block" % x)
+            return head + "%s(%s).bind fun %s =>\n" % (pad, self.expr(s.value, env), x) + self.block(rest, env | {x}, ind, top)
+        if isinstance(s, ast.Return):
+            one = "%spyReturn (%s)\n" % (pad + "  ", self.expr(s.value, env) if s.value is not None else "pyVal .noneV")
+        elif isinstance(s, ast.Raise) and s.cause is None and s.exc is not None:
+            c = s.exc
+            if isinstance(c, ast.Call):
+                for a in c.args:
+                    if not isinstance(a, (ast.Constant, ast.JoinedStr)) or any(isinstance(v, ast.FormattedValue) for v in getattr(a, "values", [])):
+                        raise Untranslatable("raise with a computed argument")
+                if c.keywords:
+                    raise Untranslatable("raise with keywords")
+                c = c.func
+            if not isinstance(c, ast.Name):
+                raise Untranslatable("raise %s" % ast.unparse(s.exc))
+            one = '%s(.error (excOfName "%s"))\n' % (pad + "  ", c.id)
+        elif isinstance(s, ast.Pass):
+            one = "%s(.ok none)\n" % (pad + "  ")
+        elif isinstance(s, ast.If):
+            one = ("%s(if %s then\n" % (pad + "  ", self.test(s.test, env)) + self.block(s.body, env, ind + 2, False)
+                   + "%selse\n" % (pad + "  ") + self.block(s.orelse, env, ind + 2, False) + "%s)\n" % (pad + "  "))
+        elif isinstance(s, ast.Try) and len(s.handlers) == 1 and not s.orelse and not s.finalbody and s.handlers[0].type is not None and s.handlers[0].name is None:
+            one = ("%s(pyTry (\n" % (pad + "  ") + self.block(s.body, env, ind + 2, False) + "%s) %s (\n" % (pad + "  ", self.classes(s.handlers[0].type))
+                   + self.block(s.handlers[0].body, env, ind + 2, False) + "%s))\n" % (pad + "  "))
+        else:
+            raise Untranslatable("statement %s" % ast.unparse(s).split("\n")[0])
+        if not rest:
+            return head + one
+        return head + "%spySeq\n" % pad + one + "%s  (\n" % pad + self.block(rest, env, ind + 2, top) + "%s  )\n" % pad
+
+    def lean(self):
+        body = self.block(self.fn.body, {self.param}, 1, True)
+        doc = "`%s` of orso/types.py, statement by statement" % self.fn.name
+        return "/-- %s -/\ndef %s (%s : Val) : Except Exc (Option Val) :=\n%s\n" % (doc, self.defname, self.param, body)
